@@ -143,7 +143,7 @@ var c18Tmpls = [][]c18TL{
 	{ // 5: the fault is the loop condition itself, on its second evaluation (line 1 is replaced by the faulting header)
 		{0, "令圈 = 0", false, false, 1, -1},
 		{0, "每当 圈 < 2：", true, false, 1, -1},
-		{1, "圈 = 圈 + 1", false, false, 1, -1},
+		{1, "圈 = 圈 + 1；", false, false, 1, -1}, // (a statement closed with ；: the header keeps its own line)
 		{1, "（显示：圈）", false, false, 1, -1},
 		{0, "（显示：“完”）", false, false, 1, -1},
 	},
@@ -227,20 +227,33 @@ var c18Ctxs = []c18Ctx{
 	11: {name: "zhu_comment_3_double_quotes", lines: []string{"注：“说明一", "说明二", "说明三”"}},
 	12: {name: "slash_comment_3_indented_inside", lines: []string{"/* 注释一", "        注释二", "*/"}},
 	13: {name: "zhu_comment_1", lines: []string{"注：单行说明"}},
+	17: {name: "zhu_comment_empty", lines: []string{"注："}},
+	18: {name: "zhu_comment_empty_numbered_then_blank", lines: []string{"注12：", ""}},
 	14: {name: "multiline_string_4_with_blank", lines: []string{"令%s = “第一行", "", "// 非注释", "第四行”"}, stmt: true},
 	// a backtick that opens no escape, right before the text's line break (the break is a line all the same)
 	15: {name: "multiline_string_2_backtick_before_break", lines: []string{"令%s = “第一行`", "第二行”"}, stmt: true},
 	16: {name: "multiline_string_3_backticks_before_breaks", lines: []string{"令%s = 「甲`", "乙`", "丙`丁」"}, stmt: true},
 }
 
-var c18QuickCtx = []int{1, 2, 3, 4, 5, 6, 7, 8, 9, 15}
-var c18ThoroughCtx = []int{1, 2, 3, 4, 5, 6, 7, 8, 9, 10, 11, 12, 13, 14, 15, 16}
+var c18QuickCtx = []int{1, 2, 3, 4, 5, 6, 7, 8, 9, 15, 17}
+var c18ThoroughCtx = []int{1, 2, 3, 4, 5, 6, 7, 8, 9, 10, 11, 12, 13, 14, 15, 16, 17, 18}
 var c18PairCtx = []int{1, 2, 4, 5, 7, 10}
 
 // ---------------------------------------------------------------- fault kinds
 
-var c18RunFaults = []string{"1 / 0", "（显示：未有此名）", "抛出异常：“m”！", "【1】#5"}
-var c18RunFaultNames = []string{"除零", "未定义名", "抛出异常", "索引越界"}
+var c18RunFaults = []string{"1 / 0", "（显示：未有此名）", "抛出异常：“m”！", "【1】#5", "以（新建件）（无此法）"}
+var c18RunFaultNames = []string{"除零", "未定义名", "抛出异常", "索引越界", "对象无此方法"}
+
+// c18KindNoMethod: a method that the object's type (件, defined at the top of the fault's file) does
+// not have: no call starts, so the chain ends at the line of the statement
+const c18KindNoMethod = 4
+
+func c18DefineType(f *c18File, p c18Params) {
+	if p.Tmpl != 5 && p.Kind == c18KindNoMethod {
+		f.add(0, "定义件：")
+		f.add(1, "其P = 1")
+	}
+}
 
 // loop conditions that are fine on the first evaluation and fault on the second
 var c18CondFaults = []string{"每当 1 / {1 - 圈} > 0：", "每当 【1】#{1 + 圈 * 4} == 1："}
@@ -581,6 +594,7 @@ func c18Build(p c18Params) (pr c18Prog) {
 		}
 		pr.ImportLine = main.add(0, "导入《外》")
 		main.add(0, "令主 = 1")
+		c18DefineType(ext, p)
 		bb := *b
 		bb.p.CtxPos = 0
 		if p.CtxPos == 1 {
@@ -633,6 +647,7 @@ func c18Build(p c18Params) (pr c18Prog) {
 	} else {
 		b.topCtx(ext)
 	}
+	c18DefineType(faultFile, p)
 	switch p.Handled {
 	case 1:
 		b.handledDefs(main)
@@ -1261,8 +1276,8 @@ func init() {
 		ID:    "C18",
 		Level: "exploration",
 		Rule: "E1 exhaustive over the fault-placement product; programs are generated as text with one fault at a generator-known (module, physical line, column, call chain). " +
-			"Syntax faults {stray ！, invalid character ~ / ～, unterminated string, indentation of 4k+3 / 4k-1 spaces, TAB indent in a space-indented file, unexpected deeper indent} x file {main, imported module 外} x every statement slot (every gap and every admissible indent) of 5 template programs {sequence, 如果/否则, 每当, 遍历+如果, around a method definition} x context before the fault line {none, 3-line string literal, /* */ over 2 and 3 lines, 注：「」 over 2 lines, 1-2 blank lines, // comment, comment ending on the fault's own line, 2-line string literal whose first line ends with a backtick that opens no escape; thorough: more forms, ordered pairs, top-of-file placement} x line end {LF, CRLF, CR} x 10 prefixes before the offending character (ASCII, CJK, full-width punctuation, in-line comment, multi-line literal ending on the line) x last line with / without line end. " +
-			"Runtime faults {1 / 0, undefined name, uncaught 抛出异常, index out of range; loop condition faulting on its second evaluation} x every slot that executes (straight, first loop pass, or inside a finished-later call of a local method) x context (before the fault / top of file) x line end x call depth 0..3 (call sites: declaration, inside 如果, inside 遍历; thorough: 6 uniform forms) x module boundary {none, innermost method in 外, two innermost in 外} x handled exception earlier {no, in main, right before the fault}; every method on the way handling another exception class; an imported module that exports methods named like the program's own methods. " +
+			"Syntax faults {stray ！, invalid character ~ / ～, unterminated string, indentation of 4k+3 / 4k-1 spaces, TAB indent in a space-indented file, unexpected deeper indent} x file {main, imported module 外} x every statement slot (every gap and every admissible indent) of 5 template programs {sequence, 如果/否则, 每当, 遍历+如果, around a method definition} x context before the fault line {none, 3-line string literal, /* */ over 2 and 3 lines, 注：「」 over 2 lines, 1-2 blank lines, // comment, comment ending on the fault's own line, an empty 注： comment, 2-line string literal whose first line ends with a backtick that opens no escape; thorough: more forms, ordered pairs, top-of-file placement} x line end {LF, CRLF, CR} x 10 prefixes before the offending character (ASCII, CJK, full-width punctuation, in-line comment, multi-line literal ending on the line) x last line with / without line end. " +
+			"Runtime faults {1 / 0, undefined name, uncaught 抛出异常, index out of range, a method that the object's type does not have; loop condition faulting on its second evaluation} x every slot that executes (straight, first loop pass, or inside a finished-later call of a local method) x context (before the fault / top of file) x line end x call depth 0..3 (call sites: declaration, inside 如果, inside 遍历; thorough: 6 uniform forms) x module boundary {none, innermost method in 外, two innermost in 外} x handled exception earlier {no, in main, right before the fault}; every method on the way handling another exception class; an imported module that exports methods named like the program's own methods. " +
 			"Faults met while 外 is being imported x contexts before the 导入 line. Caret column after every character of the unambiguous-width alphabet. Oracle: positions known to the generator; widths from an embedded East-Asian-width table. Cases are distinct by construction (injective parameters); non-trivial = anything beyond a bare LF depth-0 program without context or prefix.",
 		Assumptions: []string{
 			"the report's order of entries is not fixed by the statement: the chain is accepted outermost-first or innermost-first",
@@ -1278,7 +1293,7 @@ func init() {
 			if tier == "thorough" {
 				return 25 * time.Minute
 			}
-			return 150 * time.Second
+			return 240 * time.Second
 		},
 		Run: func(c *mc.Ctx) {
 			defer c18Cleanup()
